@@ -58,6 +58,9 @@ def edge_atom(b, src, label, depth=12, named_leaf=False):
                 op = NEG[op]
                 truth = True
             e = ("bin", op, e[2][0], e[2][1])
+    # canonical orientation: a > b is b < a, a >= b is b <= a (rules only ever see Lt / Le / Eq / Ne)
+    if isinstance(e, tuple) and e[0] == "bin" and e[1] in ("Gt", "Ge") and truth is True:
+        e = ("bin", "Lt" if e[1] == "Gt" else "Le", e[3], e[2])
     return (e, truth)
 
 
@@ -70,6 +73,48 @@ def dom_atoms(b, blk, named_leaf=False):
         if a is not None:
             out.append((a[0], a[1], src))
     return out
+
+
+def deep_leaves(b, e, depth=3):
+    """leaves of e, plus the leaves of the defining expressions of the named single-definition locals among them (temporaries are transparent)"""
+    out = set(leaves(e))
+    frontier = {x for x in out if x[0] == "local"}
+    for _ in range(depth):
+        nxt = set()
+        for x in frontier:
+            sd = b.single_def(x[1])
+            if sd is None:
+                continue
+            ex = b.local_expr(x[1], 8)
+            if isinstance(ex, tuple) and ex != ("local", x[1]):
+                lv = set(leaves(ex))
+                nxt |= {y for y in lv if y[0] == "local" and y not in out}
+                out |= lv
+        frontier = nxt
+        if not frontier:
+            break
+    return out
+
+
+def deep_has_call(b, e, names, depth=3):
+    """has_call, looking through named single-definition temporaries"""
+    if has_call(e, names):
+        return True
+    seen = set()
+    frontier = {x for x in leaves(e) if x[0] == "local"}
+    for _ in range(depth):
+        nxt = set()
+        for x in frontier:
+            if x in seen:
+                continue
+            seen.add(x)
+            ex = b.local_expr(x[1], 8)
+            if isinstance(ex, tuple) and ex != ("local", x[1]):
+                if has_call(ex, names):
+                    return True
+                nxt |= {y for y in leaves(ex) if y[0] == "local"}
+        frontier = nxt
+    return False
 
 
 def has_call(e, names):
@@ -298,7 +343,7 @@ def visit_once(facts):
                     "heap push dominated by !is_visited(node) (popped node not settled) and !is_visited(next) (target not settled)",
                     "dijkstra relaxes an edge without both settled-tests (`visited.is_visited(&node)`, `visited.is_visited(&next)`) "
                     "being false on the dominating edges")
-        o.check(b, "relaxations", b.line, n >= 2, "%d relaxation push site(s)" % n, "relaxation sites not found")
+        o.check(b, "relaxations", b.line, n >= 1, "%d relaxation push site(s)" % n, "relaxation sites not found")
     # Kruskal: Element::Edge emitted only under union(..)==true
     for b in o.need_fn(facts, "«algo::min_spanning_tree::MinSpanningTree as core::iter::Iterator»::next"):
         n = 0
@@ -320,6 +365,10 @@ def visit_once(facts):
             for (e, truth, src) in dom_atoms(b, i):
                 c = call_atom(e, ("contains",))
                 if c is not None and truth is False:
+                    ok = True
+                # test-and-set form: `if !nodes_taken.insert(target) { continue }` (HashSet::insert is true iff newly inserted)
+                c2 = call_atom(e, ("insert",))
+                if c2 is not None and truth is True and "HashSet" in norm_path(c2[1]["path"]) + c2[1].get("self", ""):
                     ok = True
             o.check(b, "emit-edge#%d" % n, st["line"], ok, "edge emitted only under !nodes_taken.contains(target)",
                     "Prim emits an edge that is not dominated by the false edge of nodes_taken.contains(..)")
@@ -538,6 +587,12 @@ def unchecked(facts):
             ok = any(isinstance(s, tuple) and s[0] == "call" and last_seg(s[1]["path"]) == "next" and "Range<usize>" in s[1].get("self", "") for s in walk_expr(e))
             # the range must be 0..self.len()
             rng = any(isinstance(s, tuple) and s[0] == "agg" and s[1].endswith("ops::Range") and len(s[3]) == 2 and _is_len_of(s[3][1]) for s in walk_expr(e))
+            if not (ok and rng):
+                # the same bound written as an explicit loop condition: `while ix < n` with n = self.len() / self.parent.len()
+                ixr = named_roots(b, t["args"][1])
+                for (ae, truth, src) in dom_atoms(b, i, named_leaf=True):
+                    if isinstance(ae, tuple) and ae[0] == "bin" and ae[1] == "Lt" and truth is True and (roots_named(b, ae[2]) & ixr) and deep_has_call(b, ae[3], ("len",)):
+                        ok = rng = True
             o.check(b, "%s#%d" % (last_seg(t["f"]["path"]), n), t["line"], ok and rng, "index is the loop variable of 0..self.len()",
                     "unchecked access in into_labeling is not indexed by the loop variable of `0..self.len()`")
         o.check(b, "sites", b.line, True, "%d unchecked access(es), each with its obligation" % n, "")
